@@ -155,7 +155,7 @@ w('''
 //@   requires [C25] wf: t.handler != nil && hLite(t.handler)
 //@   requires [C23] queue_wf: bufWF(t.handler)
 //@   requires [C16] holds_what_was_sent: pktx != nil && (wfFromGateway(pktx) || isMqAck(pktx))
-//@   deadreturn 1 what is held for retransmission is always an MQTT-SN or an MQTT packet
+//@   deadreturn 2 what is held for retransmission is always an MQTT-SN or an MQTT packet
 //@   let h = t.handler
 //@   let sn = old(wfFromGateway(pktx))
 //@   assigns h.snOutN, h.snOut, h.pktBuffer, h.mqttOutN, h.mqttOut, pktx.(*snPkts1.Publish).DUPProperty.dup,
@@ -164,7 +164,9 @@ w('''
 //@   ensures [C25] state_same: state(h) == old(state(h))
 //@   ensures [C16] sn_packet_resent_as_is: sn ==> h.mqttOutN == old(h.mqttOutN) && (h.snOutN == old(h.snOutN) || h.snOutN == old(h.snOutN) + 1) &&
 //@      (old(state(h)) != 2 && result == nil ==> h.snOutN == old(h.snOutN) + 1) && (h.snOutN == old(h.snOutN) + 1 ==> h.snOut[old(h.snOutN)] == pktx)
-//@   ensures [C16] dup_set: istype(pktx, *snPkts1.Publish) ==> pktx.(*snPkts1.Publish).DUPProperty.dup
+//@   ensures [C16] dup_set: istype(pktx, *snPkts1.Publish) && old(state(h)) != 2 ==> pktx.(*snPkts1.Publish).DUPProperty.dup
+// C11: the packet of an exchange with a sleeping client is already in the sleep buffer: its retransmission is neither sent nor queued again
+//@   ensures [C11] asleep_nothing_requeued: sn && old(state(h)) == 2 ==> result == nil && h.snOutN == old(h.snOutN) && h.mqttOutN == old(h.mqttOutN) && sameSlice(h.pktBuffer, old(h.pktBuffer))
 //@   ensures [C16] mqtt_ack_resent_as_is: !sn ==> h.snOutN == old(h.snOutN) && (h.mqttOutN == old(h.mqttOutN) || h.mqttOutN == old(h.mqttOutN) + 1) &&
 //@      (result == nil ==> h.mqttOutN == old(h.mqttOutN) + 1) && (h.mqttOutN == old(h.mqttOutN) + 1 ==> h.mqttOut[old(h.mqttOutN)] == pktx)
 ''' % (PKTLEN % tuple(['pktx'] * 13)))
